@@ -231,6 +231,9 @@ def run(ck, facts, tier):
         else:
             ck.violation(R, "mixed_inductive_coinductive_cycle_from", mx.where(), "must be `any_coinductive && any_inductive`")
 
+    from props.c10 import scc_links
+    scc_links(ck, facts, "C05.NO-STALE-LINKS")
+
     R = "C05.NO-STALE"
     ck.rule(R, "K3: SLG: on_coinductive_subgoal is reached only under top_of_stack_is_coinductive_from(cyclic_depth) (every table of the cycle is "
                "coinductive); root_answer reports InvalidAnswer while delayed_subgoals is non-empty; pursue_answer drops a delayed subgoal "
